@@ -80,6 +80,34 @@ def run_shard(spec, res):
                     run.step({**st_, "s": 1 - a_, "extra": []})
                     run.step({**st_, "s": a_, "extra": []})
                 res.count("directed_openings")
+            if al.nvars >= 2 and rng.random() < 0.2 and not run.failed:
+                # a bystander: a copy of a solver that is later made unsatisfiable by the constant False and merged with
+                # a relative - the copy was not part of any of it
+                x_, y_ = al.v(0), al.v(1)
+                base_i = 0
+                run.step({"op": "add", "s": base_i, "cons": [["ugt", x_, ["bvv", 1, al.w]]]})
+                run.step({"op": "branch", "s": base_i})
+                b_i = len(run.live) - 1
+                if rng.random() < 0.8:
+                    run.step({"op": "add", "s": b_i, "cons": [["ult", y_, ["bvv", (1 << al.w) - 2, al.w]]]})
+                run.step({"op": "branch", "s": b_i})
+                keep_i = len(run.live) - 1
+                run.step({"op": "add", "s": b_i, "cons": [["boolv", False]]})
+                run.step({"op": "branch", "s": base_i})
+                o_i = len(run.live) - 1
+                run.step({"op": "add", "s": o_i, "cons": [[rng.choice(["ugt", "ne"]), y_, ["bvv", 2, al.w]]]})
+                nlive = len(run.live)
+                pb = api.probe(run.live[keep_i].solver, exprs, bools, run.b)
+                first, second = (b_i, o_i) if rng.random() < 0.5 else (o_i, b_i)
+                try:
+                    run.live[first].solver.merge([run.live[second].solver], [run.b(["boolv", True]), run.b(["eq", x_, ["bvv", 2, al.w]])])
+                    res.count("bystander_merges")
+                except claripy.errors.ClaripyError as e_:
+                    res.count("bystander_merge_raised:" + type(e_).__name__)
+                pa = api.probe(run.live[keep_i].solver, exprs, bools, run.b)
+                res.count("probe_pairs")
+                if pa != pb:
+                    run.viol({"op": "probe", "s": keep_i, "other": [first, second]}, "answers-changed-by-operations-on-another-branch", before=pb, after=pa, differing=[(a_, b_) for a_, b_ in zip(pb, pa) if a_ != b_][:6], exprs=exprs, scenario="merge of relatives")
             for step_i in range(rng.choice([8, 14, 22])):
                 k = rng.random()
                 s = rng.randrange(nlive)
